@@ -280,11 +280,13 @@ pub enum Op {
     Last(usize),
     Count(usize),
     DebugFmt(usize),
+    /// `E::iter()` again: a fresh handle (replaces handle h when MAX_HANDLES are live)
+    Iter(usize),
 }
 
 pub const OP_KINDS: &[&str] = &[
     "next", "next_back", "nth", "nth_back", "len", "size_hint", "clone", "drop", "skip_next", "step_by",
-    "rev_nth", "rev_skip_next", "last", "count", "debug_fmt",
+    "rev_nth", "rev_skip_next", "last", "count", "debug_fmt", "iter",
 ];
 
 impl Op {
@@ -305,12 +307,13 @@ impl Op {
             Op::Last(_) => 12,
             Op::Count(_) => 13,
             Op::DebugFmt(_) => 14,
+            Op::Iter(_) => 15,
         }
     }
     pub fn handle(&self) -> usize {
         match self {
             Op::Next(h) | Op::NextBack(h) | Op::Len(h) | Op::SizeHint(h) | Op::Clone(h) | Op::Drop(h)
-            | Op::Last(h) | Op::Count(h) | Op::DebugFmt(h) => *h,
+            | Op::Last(h) | Op::Count(h) | Op::DebugFmt(h) | Op::Iter(h) => *h,
             Op::Nth(h, _) | Op::NthBack(h, _) | Op::SkipNext(h, _) | Op::RevNth(h, _) | Op::RevSkipNext(h, _) => *h,
             Op::StepBy(h, _, _) => *h,
         }
@@ -367,6 +370,7 @@ impl Op {
             "last" => Op::Last(num(1)?),
             "count" => Op::Count(num(1)?),
             "debug_fmt" => Op::DebugFmt(num(1)?),
+            "iter" => Op::Iter(num(1)?),
             other => return Err(format!("unknown op {:?}", other)),
         })
     }
@@ -390,7 +394,7 @@ pub const NAMES: &[&str] = &[
     "probe_adapter_skip_huge", "probe_adapter_step_by_huge", "probe_n_equals_remaining",
     "probe_n_equals_remaining_minus_1", "probe_n_equals_remaining_plus_1", "probe_clone_diverged",
     "probe_meet_in_middle", "probe_run_with_huge", "probe_run_without_huge", "probe_empty_enum_run",
-    "probe_yielded_some", "probe_yielded_none",
+    "probe_yielded_some", "probe_yielded_none", "op_iter", "probe_run_started_at_random_cursor_state",
 ];
 const C_HUGE_FRESH: usize = 15;
 const C_HUGE_FRONT: usize = 16;
@@ -414,6 +418,8 @@ const C_RUN_NOHUGE: usize = 33;
 const C_EMPTY_RUN: usize = 34;
 const C_SOME: usize = 35;
 const C_NONE: usize = 36;
+const C_OP_ITER: usize = 37;
+pub const C_JUMP_START: usize = 38;
 
 // ------------------------------------------------------------------------------------------
 // World: executes a script against real handles and the model, checking invariants.
@@ -524,7 +530,7 @@ impl<'a> Exec<'a> {
                 self.trace.u(k as u64);
             }
             if let Some(st) = stats.as_deref_mut() {
-                st.hit(op.kind());
+                st.hit(if op.kind() == 15 { C_OP_ITER } else { op.kind() });
                 // state coverage: (N, front, back, op kind, k class)
                 let kc: u64 = match op.k() {
                     None => 0,
@@ -569,7 +575,7 @@ impl<'a> Exec<'a> {
                         }
                     }
                 }
-                if rem == 0 && !matches!(op, Op::Clone(_) | Op::Drop(_)) {
+                if rem == 0 && !matches!(op, Op::Clone(_) | Op::Drop(_) | Op::Iter(_)) {
                     st.hit(C_OP_AFTER_EXH);
                     if matches!(op, Op::NextBack(_) | Op::NthBack(..)) && front == n && n > 0 {
                         st.hit(C_NB_AFTER_FRONT_EXH);
@@ -703,6 +709,21 @@ impl<'a> Exec<'a> {
                         self.note(|| format!("{} -> handle {}", op.line(), slots.len() - 1));
                     }
                 }
+                Op::Iter(_) => {
+                    let real = catch(|| (case.make)()).map_err(|p| fail("panic", "no panic".into(), format!("panic: {}", p)))?;
+                    let ns = Slot { real, model: Model { lo: 0, hi: n }, consumed_back: false, parent: None };
+                    if slots.len() < MAX_HANDLES {
+                        slots.push(ns);
+                    } else {
+                        slots[hi] = ns;
+                        for s in slots.iter_mut() {
+                            if s.parent == Some(hi) {
+                                s.parent = None;
+                            }
+                        }
+                    }
+                    self.note(|| op.line());
+                }
                 Op::Drop(_) => {
                     if slots.len() > 1 {
                         slots.remove(hi);
@@ -752,26 +773,34 @@ impl<'a> Exec<'a> {
 // ------------------------------------------------------------------------------------------
 // Workload generation (the seeded scheduler).
 
-fn gen_k(rng: &mut Rng, n: usize, rem: usize, allow_huge: bool, huge_weight: u32) -> usize {
-    // classes: 0..N+1 | around remaining | N+2..64 | MAX/2 | MAX-1 | MAX | random u64
+/// `style`: 0 = careful walk (k small relative to what remains, so the iterator makes real
+/// progress), 1 = mixed, 2 = aggressive (many exhausting calls).
+fn gen_k(rng: &mut Rng, n: usize, rem: usize, allow_huge: bool, huge_weight: u32, style: u8) -> usize {
+    // classes: small step | 0..N+1 | around remaining | N+2..64 | MAX/2 | MAX-1 | MAX | random u64
     let w_huge = if allow_huge { huge_weight } else { 0 };
-    let c = rng.weighted(&[40, 20, 6, w_huge, w_huge, 2 * w_huge, w_huge]);
-    match c {
-        0 => rng.usize_below(n + 2),
-        1 => {
+    let w = match style {
+        0 => [70, 8, 12, 2, w_huge / 2, w_huge / 2, w_huge, w_huge / 2],
+        1 => [35, 25, 18, 4, w_huge, w_huge, 2 * w_huge, w_huge],
+        _ => [10, 40, 20, 6, w_huge, w_huge, 2 * w_huge, w_huge],
+    };
+    match rng.weighted(&w) {
+        0 => rng.usize_below(rem / 3 + 1),
+        1 => rng.usize_below(n + 2),
+        2 => {
             let d = rng.usize_below(3); // rem-1, rem, rem+1
             (rem + d).saturating_sub(1)
         }
-        2 => rng.range(n as u64 + 2, (n as u64 + 10).max(64)) as usize,
-        3 => usize::MAX / 2 + rng.usize_below(3) - 1,
-        4 => usize::MAX - 1,
-        5 => usize::MAX,
+        3 => rng.range(n as u64 + 2, (n as u64 + 10).max(64)) as usize,
+        4 => usize::MAX / 2 + rng.usize_below(3) - 1,
+        5 => usize::MAX - 1,
+        6 => usize::MAX,
         _ => (rng.next_u64() | (1 << 40)) as usize,
     }
 }
 
-pub fn gen_ops(rng: &mut Rng, n: usize) -> Vec<Op> {
+pub fn gen_ops(rng: &mut Rng, n: usize) -> (Vec<Op>, bool) {
     // swarm: each run enables its own subset of operation families and fault kinds
+    let style = rng.weighted(&[40, 35, 25]) as u8;
     let allow_huge = rng.chance(55, 100);
     let huge_weight = [2u32, 6, 14][rng.usize_below(3)];
     let allow_clone = rng.chance(70, 100);
@@ -779,16 +808,42 @@ pub fn gen_ops(rng: &mut Rng, n: usize) -> Vec<Op> {
     let allow_back = rng.chance(85, 100);
     let keep_going_after_exhaustion = rng.chance(40, 100);
     let steps = rng.range(4, 40) as usize;
-    let mut ops = Vec::with_capacity(steps);
+    let mut ops = Vec::with_capacity(steps + 2);
     // shadow model per handle so that the generator can aim at interesting states
     let mut sh: Vec<Model> = vec![Model { lo: 0, hi: n }];
+    // jump start: put the first handle at a uniformly chosen (front, back) cursor state, so that
+    // every cursor pair of every N is a starting point of many runs
+    let mut jumped = false;
+    if n > 0 && rng.chance(45, 100) {
+        jumped = true;
+        let front = rng.usize_below(n + 1);
+        let back = rng.usize_below(n - front + 1);
+        if front > 0 {
+            ops.push(Op::Nth(0, front - 1));
+            sh[0].nth(front - 1);
+        }
+        if back > 0 {
+            ops.push(Op::NthBack(0, back - 1));
+            sh[0].nth_back(back - 1);
+        }
+    }
     let mut i = 0;
     while i < steps {
         i += 1;
         let h = rng.usize_below(sh.len());
         let rem = sh[h].hi - sh[h].lo;
-        if rem == 0 && !keep_going_after_exhaustion && sh.len() == 1 && rng.chance(1, 2) {
-            break;
+        if rem == 0 && !keep_going_after_exhaustion {
+            // an exhausted handle: usually get a fresh one instead of hammering it
+            if rng.chance(60, 100) {
+                let op = Op::Iter(h);
+                if sh.len() < MAX_HANDLES {
+                    sh.push(Model { lo: 0, hi: n });
+                } else {
+                    sh[h] = Model { lo: 0, hi: n };
+                }
+                ops.push(op);
+                continue;
+            }
         }
         let w = [
             30u32,                                   // next
@@ -803,27 +858,29 @@ pub fn gen_ops(rng: &mut Rng, n: usize) -> Vec<Op> {
             if allow_adapters { 6 } else { 0 },      // step_by
             if allow_adapters && allow_back { 4 } else { 0 }, // rev_nth
             if allow_adapters && allow_back { 3 } else { 0 }, // rev_skip_next
-            if allow_adapters { 1 } else { 0 },      // last
-            if allow_adapters { 1 } else { 0 },      // count
+            if allow_adapters && style == 2 { 1 } else { 0 }, // last
+            if allow_adapters && style == 2 { 1 } else { 0 }, // count
             1,                                       // debug_fmt
+            2,                                       // iter
         ];
         let kind = rng.weighted(&w);
         let op = match kind {
             0 => Op::Next(h),
             1 => Op::NextBack(h),
-            2 => Op::Nth(h, gen_k(rng, n, rem, allow_huge, huge_weight)),
-            3 => Op::NthBack(h, gen_k(rng, n, rem, allow_huge, huge_weight)),
+            2 => Op::Nth(h, gen_k(rng, n, rem, allow_huge, huge_weight, style)),
+            3 => Op::NthBack(h, gen_k(rng, n, rem, allow_huge, huge_weight, style)),
             4 => Op::Len(h),
             5 => Op::SizeHint(h),
             6 => Op::Clone(h),
             7 => Op::Drop(h),
-            8 => Op::SkipNext(h, gen_k(rng, n, rem, allow_huge, huge_weight)),
-            9 => Op::StepBy(h, gen_k(rng, n, rem, allow_huge, huge_weight).max(1), rng.range(1, 4) as usize),
-            10 => Op::RevNth(h, gen_k(rng, n, rem, allow_huge, huge_weight)),
-            11 => Op::RevSkipNext(h, gen_k(rng, n, rem, allow_huge, huge_weight)),
+            8 => Op::SkipNext(h, gen_k(rng, n, rem, allow_huge, huge_weight, style)),
+            9 => Op::StepBy(h, gen_k(rng, n, rem, allow_huge, huge_weight, style).max(1), rng.range(1, 4) as usize),
+            10 => Op::RevNth(h, gen_k(rng, n, rem, allow_huge, huge_weight, style)),
+            11 => Op::RevSkipNext(h, gen_k(rng, n, rem, allow_huge, huge_weight, style)),
             12 => Op::Last(h),
             13 => Op::Count(h),
-            _ => Op::DebugFmt(h),
+            14 => Op::DebugFmt(h),
+            _ => Op::Iter(h),
         };
         // advance the shadow
         match &op {
@@ -856,11 +913,18 @@ pub fn gen_ops(rng: &mut Rng, n: usize) -> Vec<Op> {
                     sh.remove(h);
                 }
             }
+            Op::Iter(_) => {
+                if sh.len() < MAX_HANDLES {
+                    sh.push(Model { lo: 0, hi: n });
+                } else {
+                    sh[h] = Model { lo: 0, hi: n };
+                }
+            }
             _ => {}
         }
         ops.push(op);
     }
-    ops
+    (ops, jumped)
 }
 
 // ------------------------------------------------------------------------------------------
@@ -977,7 +1041,10 @@ pub fn main(cases: &'static [Case]) -> ! {
     let mut stats = run_parallel(&cli, NAMES, |run, st| {
         let mut rng = Rng::for_run(seed, ENGINE_ID, 0, run);
         let case = &cases[rng.usize_below(cases.len())];
-        let ops = gen_ops(&mut rng, case.n);
+        let (ops, jumped) = gen_ops(&mut rng, case.n);
+        if jumped {
+            st.hit(C_JUMP_START);
+        }
         let keep = run < 3;
         let mut ex = Exec::new(case, keep);
         let r = ex.run(&ops, Some(st));
@@ -1011,10 +1078,19 @@ pub fn main(cases: &'static [Case]) -> ! {
     ns.sort_unstable();
     ns.dedup();
     let reachable_states: u64 = ns.iter().map(|n| ((n + 1) * (n + 2) / 2) as u64).sum();
+    let reachable_states_small: u64 = ns.iter().filter(|n| **n <= 8).map(|n| ((n + 1) * (n + 2) / 2) as u64).sum();
     let mut visited_states = std::collections::BTreeSet::new();
+    let mut visited_states_small = std::collections::BTreeSet::new();
+    let mut visited_state_ops_small = std::collections::BTreeSet::new();
     for c in &stats.cover {
         visited_states.insert(c >> 16);
+        if (c >> 32) <= 8 {
+            visited_states_small.insert(c >> 16);
+            visited_state_ops_small.insert(c >> 8);
+        }
     }
+    // ops that need a handle to operate on (every kind applies in every cursor state)
+    let reachable_state_ops_small = reachable_states_small * OP_KINDS.len() as u64;
 
     // minimise + write replay files for each distinct signature
     let mut candidates = Vec::new();
@@ -1045,6 +1121,10 @@ pub fn main(cases: &'static [Case]) -> ! {
         .set("n_values", Json::Arr(ns.iter().map(|n| Json::u(*n as u64)).collect()))
         .set("reachable_cursor_states", Json::u(reachable_states))
         .set("visited_cursor_states", Json::u(visited_states.len() as u64))
+        .set("reachable_cursor_states_n_le_8", Json::u(reachable_states_small))
+        .set("visited_cursor_states_n_le_8", Json::u(visited_states_small.len() as u64))
+        .set("reachable_state_x_opkind_n_le_8", Json::u(reachable_state_ops_small))
+        .set("visited_state_x_opkind_n_le_8", Json::u(visited_state_ops_small.len() as u64))
         .set("visited_state_op_kclass_tuples", Json::u(stats.cover.len() as u64));
     let total_v = stats.violation_total;
     write_partial(&cli, "C05", "sim_c05", &mut stats, wall, extra, candidates);
